@@ -20,6 +20,13 @@ def make_specs():
     G = c08.GWorld()
     out += [c08.GroupEvents(G, PROP), c08.BufferRun(G, PROP)]
     out.append(inotify_emitter.QueueEvents(inotify_emitter.World(), PROP, want=("root",)))
+    # "that watch's emitter stops cleanly": the stop path of an emitter (also when the root and its kernel watch are already
+    # gone, so the kernel refuses inotify_rm_watch) raises nothing
+    from specs import c12
+    from specs.inotify_read import Close
+    for sp in (Close(IRWorld(), PROP), c12.EmitterStop(), c12.BufSpec("on_thread_stop"), c12.BufSpec("close")):
+        sp.prop = PROP
+        out.append(sp)
     P, S = c10.PWorld(), c10.WalkWorld()
     for sp in (c10.PollQueueEvents(P), c10.Walk(S, PROP), c10.SnapInit(S)):
         sp.prop = PROP
@@ -29,7 +36,7 @@ def make_specs():
 
 EXPECTED_CLAUSES = ["read_events.no-KeyError[self._path_for_wd[wd]]", "read_events.no-KeyError[self._path_for_wd.pop(wd)]", "read_events.post[every live kernel descriptor has a path entry]", "read_events.no-KeyError[self._wd_for_path.pop(_path)]",
                     "run.item[the reader stops after the root's IGNORED / DELETE_SELF", "queue_events.post[root DELETE_SELF: exactly one DirDeletedEvent(root) and the emitter stops]", "PollingEmitter.queue_events.post[root gone",
-                    "walk.post[listing failed with ENOENT/ENOTDIR/EINVAL"]
+                    "walk.post[listing failed with ENOENT/ENOTDIR/EINVAL", "Inotify.close.post[closed]", "InotifyBuffer.close.post[stop flag"]
 CANARIES = [
     {"name": "drop errno.ENOTDIR from the tolerated set (polling walk)", "file": "watchdog/utils/dirsnapshot.py", "fn": "DirectorySnapshot.walk", "find": "(errno.ENOENT, errno.ENOTDIR, errno.EINVAL)", "replace": "(errno.ENOENT, errno.EINVAL)"},
     {"name": "unguarded lookup in the IN_IGNORED clean-up (the repaired defect)", "file": FILE, "fn": "Inotify.read_events", "find": "if self._wd_for_path.get(path) == wd:", "replace": "if self._wd_for_path[path] == wd:"},
